@@ -1155,7 +1155,7 @@ func main() {
 			confirmSig = append(confirmSig, s)
 		}
 	}
-	isolated := map[string]string{}
+	isolated, isolatedSig := map[string]string{}, map[string]string{}
 	twin := map[string]string{}
 	sigOf := map[uint64]string{}
 	for i, j := range confirm {
@@ -1163,22 +1163,23 @@ func main() {
 	}
 	if len(confirm) > 0 {
 		runJobs(confirm, 0, func(j job, r *result, fail *shard.Failure) {
-			verdict := "no violation"
+			verdict, vsig := "no violation", ""
 			if fail != nil {
 				v := classify(j, j.From, fail)
-				verdict = v.Kind + ": " + v.Msg
+				verdict, vsig = v.Kind+": "+v.Msg, signature(v)
 			} else if len(r.Viol) > 0 {
-				verdict = r.Viol[0].Kind + ": " + r.Viol[0].Msg
+				verdict, vsig = r.Viol[0].Kind+": "+r.Viol[0].Msg, signature(r.Viol[0])
 			}
 			s := sigOf[j.ID]
 			if j.Meta == "in-memory-twin" {
 				twin[s] = fmt.Sprintf("%s via %s: %s", quoted(j.Inputs[0]), cellName("io", j.From), verdict)
 			} else {
-				isolated[s] = verdict
+				isolated[s], isolatedSig[s] = verdict, vsig
 			}
 		})
 	}
-	var unconfirmed []string
+	var unconfirmed, folded []string
+	skip := map[string]bool{}
 	for _, s := range sigs {
 		a := aggs[s]
 		if isolated[s] == "no violation" {
@@ -1187,6 +1188,18 @@ func main() {
 			// against the one evaluation it was charged to: it is recorded, not reported.
 			unconfirmed = append(unconfirmed, fmt.Sprintf("%s: %s [input %s %s; cell %s; %d evaluations]", s, a.rep.Msg, a.rep.Quoted, a.rep.Bomb, a.rep.Name, a.count))
 			fmt.Fprintf(os.Stderr, "note: not reproduced alone in a fresh process, not reported: %s\n", unconfirmed[len(unconfirmed)-1])
+			skip[s] = true
+		} else if o := aggs[isolatedSig[s]]; o != nil && isolatedSig[s] != s {
+			// Alone, the same evaluation fails in another way that is reported anyway (a decoder that reads stray
+			// memory panics, faults or dies depending on what the memory holds): one defect, counted there.
+			o.count += a.count
+			folded = append(folded, s+" -> "+isolatedSig[s])
+			skip[s] = true
+		}
+	}
+	for _, s := range sigs {
+		a := aggs[s]
+		if skip[s] {
 			continue
 		}
 		cells := corpus.SortedKeys(a.cells)
@@ -1222,7 +1235,11 @@ func main() {
 	run.Set("ranges_bisected_without_journal", bisections)
 	run.Set("worker_retirements", retired)
 	run.Set("rounds", rounds)
-	run.Set("signatures", len(sigs)-len(unconfirmed))
+	run.Set("signatures", len(sigs)-len(unconfirmed)-len(folded))
+	if folded == nil {
+		folded = []string{}
+	}
+	run.Set("signatures_folded_into_their_verdict_in_isolation", folded)
 	if unconfirmed == nil {
 		unconfirmed = []string{}
 	}
